@@ -9,6 +9,6 @@ def obligations():
 META = {
     'level': 'other',
     'explanation': 'Bounded solver-checked obligation over the real topo_sort_packages / visit_package (MIR of the current tree, recursion, HashSet temp/perm marks, HashMap lookups, sorting): every import graph over the stated packages (each import bit a solver variable, a missing import target allowed) and every hash iteration order; Err must be returned iff a cycle or a missing package is reachable (reference DFS oracle), every Ok order must be a complete topological order.',
-    'assumptions': ['compile_error message formatting stubbed', 'O16.3 / O16.4 add the visibility predicate of name resolution (package_allowed) and the locality predicate of the orphan rule (is_local_nominal_type) as kernels; outside: directory discovery, package-declaration mismatch, duplicate impl detection, whole-program placement of impls'],
+    'assumptions': ['compile_error message formatting stubbed', 'O16.3 / O16.4 add the visibility predicate of name resolution (package_allowed) and the locality predicate of the orphan rule (is_local_nominal_type) as kernels; O16.5 / O16.6: load_package and discover_packages_with_layout accept a directory / project iff the declared package names agree (file system and parsing stubbed); outside: duplicate impl detection, whole-program placement of impls'],
     'trusted_base': ['mirsym MIR interpreter', 'hash container models', 'z3', 'reference DFS (oracle)'],
 }
